@@ -5,6 +5,7 @@
 package syntax
 
 import (
+	"sort"
 	"strconv"
 )
 
@@ -211,7 +212,16 @@ func (exp *SplitExp) InnerMapSource() MapCallSource {
 			return &NullExp{valExp: exp.valExp}
 		}
 		var inner MapCallSource
-		for _, ev := range e.Value {
+		// Visit the values in key order, so that the one which ends up
+		// as the source (and is shown in the call graph) is always the
+		// same one.
+		keys := make([]string, 0, len(e.Value))
+		for k := range e.Value {
+			keys = append(keys, k)
+		}
+		sort.Strings(keys)
+		for _, k := range keys {
+			ev := e.Value[k]
 			if is, ok := ev.(MapCallSource); !ok || is == nil {
 				return nil
 			} else if inner == nil {
